@@ -1036,7 +1036,7 @@ pub fn gen_prog(r: &mut Rng, root: &J, o: &GenOpts) -> Prog {
 fn add_adversarial(r: &mut Rng, p: &mut Prog, _root: &J) {
     let n = 1 + r.usize(3);
     for _ in 0..n {
-        let k = r.below(12);
+        let k = r.below(17);
         let name = format!("adv{}", p.rules.len() + 1);
         let q = |parts: Vec<Part>| Query { some: false, parts };
         let var = |v: &str| Part::Var(v.to_string());
@@ -1126,6 +1126,60 @@ fn add_adversarial(r: &mut Rng, p: &mut Prog, _root: &J) {
                 // key interpolation with a variable holding non-strings
                 lets.push(Let { name: "ks".into(), val: Arg::Lit(J::List(vec![J::Int(1), J::Str("a".into()), J::Null])) });
                 lines.push(Line { alts: vec![Clause::Cmp(Cmp { not: false, q: q(vec![Part::Key((*r.pick(doc::KEYS)).to_string()), Part::Key("%ks".into())]), op: Op::Exists, opnot: false, rhs: None, msg: None })] });
+            }
+            12 => {
+                // a function whose 2nd / 3rd argument is a query or variable that selects nothing
+                let key = (*r.pick(doc::KEYS)).to_string();
+                let empty_q = match r.below(3) {
+                    0 => q(vec![Part::Key(key.clone()), Part::Filter { cap: None, lines: vec![Line { alts: vec![Clause::Cmp(Cmp { not: false, q: q(vec![Part::Key("zz_no".into())]), op: Op::Eq, opnot: false, rhs: Some(Rhs::Lit(J::Int(1))), msg: None })] }] }]),
+                    1 => q(vec![Part::Key("zz_missing".into())]),
+                    _ => q(vec![Part::This, Part::Star, Part::Filter { cap: None, lines: vec![Line { alts: vec![Clause::Cmp(Cmp { not: false, q: q(vec![Part::This]), op: Op::IsNull, opnot: false, rhs: None, msg: None })] }] }]),
+                };
+                lets.push(Let { name: "e".into(), val: Arg::Query(empty_q.clone()) });
+                lets.push(Let { name: "l".into(), val: Arg::Query(q(vec![Part::Key(key), Part::Star])) });
+                let e = if r.chance(1, 2) { Arg::Query(q(vec![var("e")])) } else { Arg::Query(empty_q) };
+                let l = Arg::Query(q(vec![var("l")]));
+                let f = match r.below(5) {
+                    0 => Func { name: "join".into(), args: vec![l, e] },
+                    1 => Func { name: "regex_replace".into(), args: vec![l, e, Arg::Lit(J::Str("b".into()))] },
+                    2 => Func { name: "regex_replace".into(), args: vec![l, Arg::Lit(J::Str("a".into())), e] },
+                    3 => Func { name: "substring".into(), args: vec![l, e, Arg::Lit(J::Int(2))] },
+                    _ => Func { name: "substring".into(), args: vec![l, Arg::Lit(J::Int(0)), e] },
+                };
+                lets.push(Let { name: "fe".into(), val: Arg::Func(Box::new(f)) });
+                lines.push(Line { alts: vec![Clause::Cmp(Cmp { not: false, q: q(vec![var("fe")]), op: Op::Exists, opnot: r.chance(1, 2), rhs: None, msg: None })] });
+            }
+            13 => {
+                // a parameterised rule that calls itself (directly or through another)
+                let mutual = r.chance(1, 2);
+                let call = |n: &str| Clause::Call { not: false, name: n.to_string(), args: vec![Arg::Query(q(vec![var("x")]))], msg: None };
+                if mutual {
+                    p.prules.push(PRule { name: "rec_a".into(), params: vec!["x".into()], body: Body { lets: vec![], lines: vec![Line { alts: vec![call("rec_b")] }] } });
+                    p.prules.push(PRule { name: "rec_b".into(), params: vec!["x".into()], body: Body { lets: vec![], lines: vec![Line { alts: vec![call("rec_a")] }] } });
+                } else if !p.prules.iter().any(|x| x.name == "rec_a") {
+                    p.prules.push(PRule { name: "rec_a".into(), params: vec!["x".into()], body: Body { lets: vec![], lines: vec![Line { alts: vec![call("rec_a")] }] } });
+                }
+                lines.push(Line { alts: vec![Clause::Call { not: r.chance(1, 3), name: "rec_a".into(), args: vec![Arg::Lit(J::Int(1))], msg: None }] });
+            }
+            14 => {
+                // blank / degenerate custom messages on clauses that fail
+                let m = (*r.pick(&[" ; ", "", " ", ";", ";;", " \t ", "\n"])).to_string();
+                let key = (*r.pick(doc::KEYS)).to_string();
+                if matches!(doc::at(_root, &[Seg::Key("Resources".into())]), Some(J::Map(_))) {
+                    // on a template the failing clause is shown by the resource-aware console reporter
+                    lines.push(Line { alts: vec![Clause::Cmp(Cmp { not: false, q: q(vec![Part::Key("Resources".into()), Part::Star, Part::Key("Type".into())]), op: Op::Eq, opnot: false, rhs: Some(Rhs::Lit(J::Str("zz never".into()))), msg: Some(m.clone()) })] });
+                    lines.push(Line { alts: vec![Clause::Cmp(Cmp { not: false, q: q(vec![Part::Key("Resources".into()), Part::Star, Part::Key("Properties".into()), Part::Key("ZzNo".into())]), op: Op::Exists, opnot: false, rhs: None, msg: Some(m.clone()) })] });
+                }
+                lines.push(Line { alts: vec![Clause::Cmp(Cmp { not: false, q: q(vec![Part::Key(key.clone())]), op: Op::Eq, opnot: false, rhs: Some(Rhs::Lit(J::Str("zz never".into()))), msg: Some(m.clone()) })] });
+                lines.push(Line { alts: vec![Clause::Cmp(Cmp { not: false, q: q(vec![Part::Key(key), Part::Key("zz".into())]), op: Op::Exists, opnot: false, rhs: None, msg: Some(m) })] });
+            }
+            15 => {
+                // regular expressions that need the backtracking engine, on a long subject
+                let re = (*r.pick(&["(?=a)(a|aa)+$", "(a+)+$", "(a*)*b", "(\\w+)\\1{9}", "^(a|a?)+$", "(?<!x)(x+x+)+y"])).to_string();
+                lets.push(Let { name: "subj".into(), val: Arg::Lit(J::Str(format!("{}!", "a".repeat(40 + r.usize(40))))) });
+                lines.push(Line { alts: vec![Clause::Cmp(Cmp { not: r.chance(1, 3), q: q(vec![var("subj")]), op: Op::Eq, opnot: r.chance(1, 3), rhs: Some(Rhs::Regex(re.clone())), msg: None })] });
+                lets.push(Let { name: "rx".into(), val: Arg::Func(Box::new(Func { name: "regex_replace".into(), args: vec![Arg::Query(q(vec![var("subj")])), Arg::Lit(J::Str("(a+)+$".into())), Arg::Lit(J::Str("$1$1".into()))] })) });
+                lines.push(Line { alts: vec![Clause::Cmp(Cmp { not: false, q: q(vec![var("rx")]), op: Op::Exists, opnot: false, rhs: None, msg: None })] });
             }
             _ => {
                 // some + not + empty on nested star paths
